@@ -152,15 +152,64 @@ theorem solverForNames_one {U : List Con} {Us : List (List Con)} {s : CSt} (h : 
       subst hjr
       simp at hnd
 
+/-- at most one child owns names of the set (a condition on the composite's dict `_solvers`) -/
+def UniqOwner (c : Comp) (names : List Var) : Prop := ∀ t ∈ c.solversFor names, ∀ t' ∈ c.solversFor names, t = t'
+
+theorem OneName.uniqOwner {names : List Var} (h1 : OneName names) (c : Comp) : UniqOwner c names := h1.solversFor c
+
+theorem solversFor_congr {c c' : Comp} (h : c'.solvers = c.solvers) (names : List Var) : c'.solversFor names = c.solversFor names := by
+  have hstep : c'.solversForStep = c.solversForStep := by
+    funext acc n
+    simp only [Comp.solversForStep, h]
+  simp only [Comp.solversFor, hstep]
+
+theorem UniqOwner.congr {c c' : Comp} (h : c'.solvers = c.solvers) {names : List Var} (hu : UniqOwner c names) :
+    UniqOwner c' names := by
+  unfold UniqOwner
+  rw [solversFor_congr h]
+  exact hu
+
 section
 variable (H : SolverHyps R RE E)
 include H
 
-/-- **a value query of the composite keeps the invariant** (no extra constraints): unconditionally when the names are one
-variable; given `ReabsorbKeeps` otherwise -/
+/-- `satisfiable()` leaves the dict `_solvers` alone -/
+theorem compSatisfiable_solvers {U : List Con} {Us : List (List Con)} {s : CSt} (h : CInv R RE E U Us s) :
+    (compSatisfiable E [] s).2.c.solvers = s.c.solvers := by
+  unfold compSatisfiable
+  simp only [bind, CM.bind, CM.get, List.isEmpty_nil, ↓reduceIte]
+  by_cases hun : s.c.unsat = true
+  · simp only [hun, ↓reduceIte, pure, CM.pure]
+  · have hun' : s.c.unsat = false := by simpa using hun
+    simp only [hun', Bool.false_eq_true, ↓reduceIte, CM.bind, orderChildren, orderOracle_run]
+    generalize reorderBy (fun (j : Nat) k => k == [j])
+      (E.pick (s.c.unchecked.map fun j => [j]) (s.c.unchecked.map fun j => [j]).length s.w.tick) s.c.unchecked = order
+    have hl := checkLoop_spec H (childFoot H) order _ (h.set_tick (s.w.tick + 1))
+    revert hl
+    generalize checkLoop E none order _ = res
+    obtain ⟨r, s1⟩ := res
+    cases r with
+    | error e => exact fun hl => by rw [hl.2.2]
+    | ok b =>
+      rintro ⟨_, hc1, _, _⟩
+      cases b with
+      | false => simp only [Bool.not_false, ↓reduceIte, pure, CM.pure]; rw [hc1]
+      | true =>
+        simp only [Bool.not_true, Bool.false_eq_true, ↓reduceIte, pure]
+        show ({ s1.c with unchecked := [] } : Comp).solvers = s.c.solvers
+        rw [hc1]
+
+end
+
+section
+variable (H : SolverHyps R RE E)
+include H
+
+/-- **a value query of the composite keeps the invariant** (no extra constraints): unconditionally when one child at most owns
+the names (`UniqOwner`; in particular when the names are one variable); given `ReabsorbKeeps` otherwise -/
 theorem compQuery_keeps {α : Type} {U : List Con} {Us : List (List Con)} {s : CSt} (h : CInv R RE E U Us s) (op : Op)
     (names : List Var) (q : M α) (f : α → Out)
-    (hK : OneName names ∨ ReabsorbKeeps R RE E)
+    (hK : UniqOwner s.c names ∨ ReabsorbKeeps R RE E)
     (hstep : ∀ w i, step E .SolverCompositeChild w i op = outOf f (runOn w i q))
     (hsc : InScopeC R RE op) (hnb : op ≠ .branch)
     (hual : ∀ X i, usersAll X i op = X)
@@ -173,13 +222,14 @@ theorem compQuery_keeps {α : Type} {U : List Con} {Us : List (List Con)} {s : C
   · have hu' : s.c.unsat = false := by simpa using hu
     simp only [hu', Bool.false_eq_true, ↓reduceIte, CM.bind]
     have hs := compSatisfiable_spec H (childFoot H) h
-    revert hs
+    have hsolv := compSatisfiable_solvers H h
+    revert hs hsolv
     generalize compSatisfiable E [] s = res
     obtain ⟨r, s0⟩ := res
     cases r with
-    | error e' => intro hs; exact ⟨Us, hs.2⟩
+    | error e' => intro hs _; exact ⟨Us, hs.2⟩
     | ok b =>
-      rintro ⟨hb, h0⟩
+      rintro ⟨hb, h0⟩ hsolv
       cases b with
       | false =>
         simp only [Bool.not_false, ↓reduceIte, CM.throw]
@@ -230,7 +280,7 @@ theorem compQuery_keeps {α : Type} {U : List Con} {Us : List (List Con)} {s : C
             have hnoop : reabsorb E m { s1 with w := w2 } = (.ok (), { s1 with w := w2 }) := by
               apply reabsorb_noop
               rw [hmv]
-              rcases solverForNames_one h0 names (h1.solversFor s0.c) with ⟨_, hnil⟩ | ⟨j, hrj, hj⟩
+              rcases solverForNames_one h0 names (h1.congr hsolv) with ⟨_, hnil⟩ | ⟨j, hrj, hj⟩
               · left
                 cases hvs : (s1.child m).variables with
                 | nil => rfl
@@ -405,8 +455,9 @@ include H
 
 /-- **one call of a history**: the answer `Judge` demands for everything the user added (or an honest give-up of a child's
 backend), and the invariant again -/
-theorem comp_step2 {K : List Var → Prop} (hK : ∀ names, K names → OneName names ∨ ReabsorbKeeps R RE E)
-    {U : List Con} {Us : List (List Con)} {s : CSt} (h : CInv R RE E U Us s) (op : Op) (hop : InScopeCH R RE K op) :
+theorem comp_step2 {K : List Var → Prop} {U : List Con} {Us : List (List Con)} {s : CSt}
+    (hK : ∀ names, K names → UniqOwner s.c names ∨ ReabsorbKeeps R RE E)
+    (h : CInv R RE E U Us s) (op : Op) (hop : InScopeCH R RE K op) :
     JudgeOrGiveUp E (usersAfter U op) op (compStep E s op).1 ∧ ∃ Us', CInv R RE E (usersAfter U op) Us' (compStep E s op).2 := by
   cases op with
   | add cs => exact comp_step H h (.add cs) hop
@@ -466,7 +517,7 @@ theorem comp_hist2 {K : List Var → Prop} (hK : ∀ names, K names → OneName 
   | [], _, _, _, _, _ => fun x hx => by cases hx
   | op :: rest, s, U, Us, h, hok => by
     intro x hx
-    obtain ⟨hj, Us', hinv⟩ := comp_step2 H hK h op (hok op (by simp))
+    obtain ⟨hj, Us', hinv⟩ := comp_step2 H (fun names hk => (hK names hk).imp (·.uniqOwner _) id) h op (hok op (by simp))
     rw [runComp_cons] at hx
     rcases List.mem_cons.mp hx with rfl | hx
     · exact hj
@@ -478,8 +529,61 @@ theorem comp_hist2_inv {K : List Var → Prop} (hK : ∀ names, K names → OneN
     (∀ op ∈ hist, InScopeCH R RE K op) → ∃ Us', CInv R RE E (usersAfterOps U hist) Us' (compRun E s hist)
   | [], _, _, Us, h, _ => ⟨Us, h⟩
   | op :: rest, s, U, Us, h, hok => by
-    obtain ⟨_, Us', hinv⟩ := comp_step2 H hK h op (hok op (by simp))
+    obtain ⟨_, Us', hinv⟩ := comp_step2 H (fun names hk => (hK names hk).imp (·.uniqOwner _) id) h op (hok op (by simp))
     exact comp_hist2_inv hK rest _ _ Us' hinv (fun op' hop' => hok op' (by simp [hop']))
+
+/-- the name set a value query asks `_solver_for_names` about -/
+def queryNames : Op → Option (List Var)
+  | .eval e _ _ => some (namesFor [e.vars])
+  | .batchEval es _ _ => some (namesFor (es.map (·.vars)))
+  | .solution e _ _ => some (namesFor [e.vars])
+  | _ => none
+
+omit H in
+theorem InScopeCH.mono {K K' : List Var → Prop} {op : Op} (hkk : ∀ names, queryNames op = some names → K names → K' names)
+    (h : InScopeCH R RE K op) : InScopeCH R RE K' op := by
+  cases op with
+  | eval e n extra => exact ⟨h.1, h.2.1, h.2.2.1, h.2.2.2.1, hkk _ rfl h.2.2.2.2⟩
+  | batchEval es n extra => exact ⟨h.1, h.2.1, h.2.2.1, h.2.2.2.1, hkk _ rfl h.2.2.2.2⟩
+  | solution e x extra => exact ⟨h.1, h.2.1, h.2.2.1, h.2.2.2.1, hkk _ rfl h.2.2.2.2⟩
+  | add cs => exact h
+  | satisfiable extra => exact h
+  | isTrue c extra => exact h
+  | isFalse c extra => exact h
+  | _ => exact h.elim
+
+/-- along the run of the model, whenever a value query is asked one child at most owns its names (the variables of the query
+were connected by constraints before, or are one variable): a condition on the bookkeeping, checkable by running the model -/
+def OwnersOk (E : Env) : CSt → List Op → Prop
+  | _, [] => True
+  | s, op :: rest => (∀ names, queryNames op = some names → UniqOwner s.c names) ∧ OwnersOk E (compStep E s op).2 rest
+
+omit H in
+/-- value queries about one variable each satisfy it in every run -/
+theorem ownersOk_of_oneName : ∀ (hist : List Op) (s : CSt), (∀ op ∈ hist, InScopeCH R RE OneName op) → OwnersOk E s hist
+  | [], _, _ => trivial
+  | op :: rest, s, hok => by
+    refine ⟨fun names hn => ?_, ownersOk_of_oneName rest _ (fun op' hop' => hok op' (by simp [hop']))⟩
+    have h := hok op (by simp)
+    cases op with
+    | eval e n extra => cases hn; exact h.2.2.2.2.uniqOwner _
+    | batchEval es n extra => cases hn; exact h.2.2.2.2.uniqOwner _
+    | solution e x extra => cases hn; exact h.2.2.2.2.uniqOwner _
+    | _ => cases hn
+
+/-- **any history in which every value query finds its names within one child** -/
+theorem comp_hist3 : ∀ (hist : List Op) (s : CSt) (U : List Con) (Us : List (List Con)), CInv R RE E U Us s →
+    (∀ op ∈ hist, InScopeCH R RE (fun _ => True) op) → OwnersOk E s hist →
+    ∀ x ∈ runComp E s U hist, JudgeOrGiveUp E x.1 x.2.1 x.2.2
+  | [], _, _, _, _, _, _ => fun x hx => by cases hx
+  | op :: rest, s, U, Us, h, hok, hown => by
+    intro x hx
+    have hop : InScopeCH R RE (UniqOwner s.c) op := (hok op (by simp)).mono (fun names hn _ => hown.1 names hn)
+    obtain ⟨hj, Us', hinv⟩ := comp_step2 H (K := UniqOwner s.c) (fun _ hk => Or.inl hk) h op hop
+    rw [runComp_cons] at hx
+    rcases List.mem_cons.mp hx with rfl | hx
+    · exact hj
+    · exact comp_hist3 rest _ _ Us' hinv (fun op' hop' => hok op' (by simp [hop'])) hown.2 x hx
 
 end
 
